@@ -210,7 +210,7 @@ func runReplay(casePath string) (string, string, error) {
 		args = append(args, strconv.FormatInt(a, 10))
 	}
 	fmt.Fprintf(&sb, "\t\t%s(%s)\n\t}()\n", rc.Func, strings.Join(args, ", "))
-	sb.WriteString("\tselect {\n\tcase r := <-done:\n\t\tfmt.Println(\"VERIF-REPLAY-RESULT\", r)\n\tcase <-time.After(5 * time.Second):\n\t\tfmt.Println(\"VERIF-REPLAY-RESULT HANG\")\n\t}\n}\n")
+	sb.WriteString("\tselect {\n\tcase r := <-done:\n\t\tfmt.Println(\"VERIF-REPLAY-RESULT\", r)\n\tcase <-time.After(20 * time.Second):\n\t\tfmt.Println(\"VERIF-REPLAY-RESULT HANG\")\n\t}\n}\n")
 	testFile := filepath.Join(dir, "replay_test.go")
 	if err := os.WriteFile(testFile, []byte(sb.String()), 0o644); err != nil {
 		return "", "", err
@@ -259,6 +259,9 @@ func harnessOverlayPaths(harnessDir string) (map[string]string, error) {
 		}
 		rel, _ := filepath.Rel(harnessDir, p)
 		dir := filepath.Dir(rel)
+		if dir == "shared" {
+			return nil
+		}
 		if strings.HasPrefix(dir, "root") {
 			dir = strings.TrimPrefix(strings.TrimPrefix(dir, "root"), "/")
 		}
